@@ -144,6 +144,41 @@ fn round_trip(c: &C) -> Result<C, String> {
     ron::from_str::<C>(&text).map_err(|e| format!("deserialisation of {text:?} failed: {e}"))
 }
 
+/// Documents that are REJECTED come first: a deserialiser that keeps state across calls (a depth counter, a scratch
+/// buffer) must not let a failed attempt influence the round trips that follow.  Returns how many were rejected.
+fn rejected_documents() -> usize {
+    let mut rejected = 0;
+    let mut v = Value::Int(1);
+    for _ in 0..16 {
+        v = Value::Tuple(vec![Value::Int(2), v]);
+    }
+    let mut c = C::new();
+    c.set_value("t".into(), v).unwrap();
+    c.set_value("s".into(), Value::String("text".into())).unwrap();
+    if let Ok(text) = ron::to_string(&c) {
+        // the innermost element becomes an unknown variant; a truncated document; a wrong field type
+        let mut bad: Vec<String> = Vec::new();
+        if let Some(i) = text.rfind("Int(1)") {
+            bad.push(format!("{}Bogus(1){}", &text[..i], &text[i + 6..]));
+        }
+        bad.push(text[..text.len() * 2 / 3].to_string());
+        bad.push(text.replacen("String(\"text\")", "String(7)", 1));
+        for _ in 0..12 {
+            for b in &bad {
+                if ron::from_str::<C>(b).is_err() {
+                    rejected += 1;
+                }
+            }
+        }
+    }
+    for src in ["\"1 +\"", "\"\\\"ab\\\\x\\\"\"", "\"(\"", "17", "\"/* open\""] {
+        if ron::from_str::<Node<DefaultNumericTypes>>(src).is_err() {
+            rejected += 1;
+        }
+    }
+    rejected
+}
+
 fn projection(c: &C, probe: &[String]) -> (bool, Vec<(String, V)>, Vec<String>) {
     let mut vars: Vec<(String, V)> = c.iter_variables().collect();
     vars.sort_by(|a, b| a.0.cmp(&b.0));
@@ -325,6 +360,10 @@ fn main() {
     std::panic::set_hook(Box::new(|_| {}));
     let mut logw = log.map(|p| std::fs::File::create(p).expect("log"));
     let mut st = State::default();
+    let rejected = rejected_documents();
+    for _ in 0..rejected {
+        st.count("rejected_documents_first");
+    }
     let stdin = std::io::stdin();
     for line in stdin.lock().lines() {
         let line = match line {
